@@ -94,7 +94,11 @@ Proof.
   - intro H. exists h. split; [exact H | apply Nat.eqb_refl].
 Qed.
 Lemma memb_nIn h l : existsb (Nat.eqb h) l = false <-> ~ In h l.
-Proof. rewrite <- memb_In. destruct (existsb _ l); split; intro; try congruence; try discriminate. exfalso; auto. Qed.
+Proof.
+  split.
+  - intros H Hin. apply memb_In in Hin. congruence.
+  - intro H. destruct (existsb (Nat.eqb h) l) eqn:E; auto. apply memb_In in E. contradiction.
+Qed.
 
 (* ------------------------------------------------------------------ the invariant of the table *)
 Definition entry_ok (t : tbl) (r : req) : Prop :=
@@ -392,22 +396,27 @@ Qed.
 Lemma id_of_entry t r : entry_ok t r -> id_of (t_dlog t) (r_h r) (r_id r) = true.
 Proof. intros (E1 & _). unfold id_of. rewrite E1. apply Z.eqb_refl. Qed.
 
+Lemma op_ok_refl t : TInv t -> op_ok t t [].
+Proof. intro T. split; [exact T | split; reflexivity]. Qed.
+
+Ltac op3 := split; [ | split; [reflexivity | ] ].
+
 (* ---- cancel ---- *)
 Lemma cancel_ok t h t' outs : TInv t -> cancel t h = (t', outs) -> op_ok t t' outs.
 Proof.
   intros T H. unfold cancel in H.
-  destruct (nth_error (t_dlog t) h) as [rid|] eqn:En; [|injection H as <- <-; repeat split; auto].
-  destruct (is_fired t h) eqn:Ef; [injection H as <- <-; repeat split; auto|].
+  destruct (nth_error (t_dlog t) h) as [rid|] eqn:En; [|injection H as <- <-; apply op_ok_refl; exact T].
+  destruct (is_fired t h) eqn:Ef; [injection H as <- <-; apply op_ok_refl; exact T|].
   unfold is_fired in Ef. apply memb_nIn in Ef.
   destruct (TInv_unfired t h rid T En Ef) as (r & L & Hr & Eh & Ei & Ec). rewrite L in H.
   destruct (TInv_entry t r T Hr) as (E1 & E2 & E3 & E4).
   destruct (r_sent r) eqn:Es.
   - rewrite fire_unfired in H by (cbn; exact Ef). injection H as <- <-. cbn [t_with_reqs t_reqs t_dlog t_fired].
-    repeat split.
+    op3.
     + subst h rid. apply TInv_tomb_fire; auto.
     + cbn [scan outcome_ok]. unfold memb. rewrite (proj2 (memb_nIn h _) Ef). reflexivity.
   - rewrite fire_unfired in H by (cbn; exact Ef). injection H as <- <-. cbn [t_with_reqs t_reqs t_dlog t_fired].
-    repeat split.
+    op3.
     + subst h rid. apply TInv_remove_fire; auto.
     + cbn [scan outcome_ok]. unfold memb. rewrite (proj2 (memb_nIn h _) Ef). reflexivity.
 Qed.
@@ -416,13 +425,13 @@ Qed.
 Lemma handle_response_ok t f t' outs : TInv t -> handle_response t f = (t', outs) -> op_ok t t' outs.
 Proof.
   intros T H. unfold handle_response in H.
-  destruct (corr_id f) as [cid|] eqn:Ec; [|injection H as <- <-; repeat split; auto].
-  destruct (lookup cid (t_reqs t)) as [r|] eqn:L; [|injection H as <- <-; repeat split; auto].
+  destruct (corr_id f) as [cid|] eqn:Ec; [|injection H as <- <-; apply op_ok_refl; exact T].
+  destruct (lookup cid (t_reqs t)) as [r|] eqn:L; [|injection H as <- <-; apply op_ok_refl; exact T].
   apply lookup_some in L. destruct L as [Hr Ei]. destruct (TInv_entry t r T Hr) as (E1 & E2 & E3 & E4).
   destruct (r_cancelled r) eqn:C.
-  - injection H as <- <-. subst cid. repeat split; auto. apply TInv_remove_tomb; auto.
+  - injection H as <- <-. subst cid. op3; [apply TInv_remove_tomb; auto | reflexivity].
   - specialize (E3 eq_refl). rewrite fire_unfired in H by (cbn; exact E3). injection H as <- <-.
-    cbn [t_with_reqs t_reqs t_dlog t_fired]. subst cid. repeat split.
+    cbn [t_with_reqs t_reqs t_dlog t_fired]. subst cid. op3.
     + apply TInv_remove_fire; auto.
     + cbn [scan outcome_ok]. unfold memb. rewrite (proj2 (memb_nIn _ _) E3). rewrite Ec.
       unfold id_of. rewrite E1. rewrite Z.eqb_refl. reflexivity.
@@ -430,12 +439,10 @@ Qed.
 
 Lemma op_ok_trans t t1 t2 o1 o2 : op_ok t t1 o1 -> op_ok t1 t2 o2 -> op_ok t t2 (o1 ++ o2).
 Proof.
-  intros (A1 & A2 & A3) (B1 & B2 & B3). repeat split; auto; [congruence|].
+  intros (A1 & A2 & A3) (B1 & B2 & B3). split; [exact B1 | split; [congruence|]].
   rewrite scan_app, A3. rewrite <- A2. exact B3.
 Qed.
 
-Lemma op_ok_refl t : TInv t -> op_ok t t [].
-Proof. intro T. repeat split; auto. Qed.
 
 Lemma deliver_ok : forall fs t t' outs, TInv t -> deliver t fs = (t', outs) -> op_ok t t' outs.
 Proof.
@@ -459,42 +466,355 @@ Proof.
   { intro f'. cbn [scan]. unfold memb. rewrite (proj2 (memb_nIn _ _) E3).
     unfold id_of. rewrite E1, Z.eqb_refl. reflexivity. }
   destruct (r_expect r).
-  - injection H as <- <-. repeat split; auto. rewrite W. reflexivity.
+  - injection H as <- <-. op3; [exact T1 | rewrite W; reflexivity].
   - cbn [t_with_reqs t_reqs] in H. rewrite fire_unfired in H by (cbn; exact E3).
-    injection H as <- <-. cbn [t_with_reqs t_reqs t_dlog t_fired]. repeat split.
+    injection H as <- <-. cbn [t_with_reqs t_reqs t_dlog t_fired]. op3.
     + pose proof (TInv_remove_fire _ (set_sent true r) T1) as X. cbn [t_with_reqs t_reqs t_dlog t_fired set_sent r_id r_h r_cancelled] in X.
       apply X; auto. apply in_upd. exists r. rewrite Z.eqb_refl. auto.
     + cbn [app]. rewrite W. cbn [scan outcome_ok]. unfold memb. rewrite (proj2 (memb_nIn _ _) E3). reflexivity.
 Qed.
 
-(* what _sendRequest does to the table *)
-Lemma send_request_reqs t r t' outs : TInv t -> In r (t_reqs t) -> send_request t r = (t', outs) ->
-  (forall x, In x (t_reqs t') ->
-     (In x (t_reqs t) /\ r_id x <> r_id r) \/ (x = set_sent true r /\ r_expect r = true))
-  /\ (forall x, In x (t_reqs t) -> r_id x <> r_id r -> In x (t_reqs t'))
-  /\ outs = OWrite (r_h r) (r_id r) :: (if r_expect r then [] else [ODef (r_h r) SuccNone]).
+
+(* ------------------------------------------------------------------ _sendQueued when nothing has been sent yet *)
+Definition sq_outs (snap : list req) : list output :=
+  flat_map (fun r => OWrite (r_h r) (r_id r) :: (if r_expect r then [] else [ODef (r_h r) SuccNone])) snap.
+Definition sq_reqs (snap : list req) : list req := map (set_sent true) (filter r_expect snap).
+Definition sq_fired (snap : list req) : list nat := map r_h (filter (fun r => negb (r_expect r)) snap).
+
+Lemma nodup_ids_mid pre r rest : NoDup (map r_id (pre ++ r :: rest)) ->
+  (forall x, In x pre -> r_id x <> r_id r) /\ (forall x, In x rest -> r_id x <> r_id r).
 Proof.
-  intros T Hr H. unfold send_request in H.
-  assert (U : forall x, In x (upd (r_id r) (set_sent true) (t_reqs t)) ->
-              (In x (t_reqs t) /\ r_id x <> r_id r) \/ x = set_sent true r).
-  { intros x Hx. apply in_upd in Hx. destruct Hx as (y & Hy & ->). destruct (r_id y =? r_id r) eqn:E.
-    - apply Z.eqb_eq in E. right. f_equal. eapply TInv_id_inj; eauto.
-    - apply Z.eqb_neq in E. left. auto. }
-  assert (U2 : forall x, In x (t_reqs t) -> r_id x <> r_id r -> In x (upd (r_id r) (set_sent true) (t_reqs t))).
-  { intros x Hx Hne. apply in_upd. exists x. split; auto. apply Z.eqb_neq in Hne. rewrite Hne. reflexivity. }
-  destruct (r_expect r) eqn:Ee.
-  - injection H as <- <-. cbn [t_with_reqs t_reqs]. repeat split; auto.
-    intros x Hx. destruct (U x Hx); auto.
-  - cbn [t_with_reqs t_reqs] in H. unfold fire in H.
-    destruct (is_fired _ _); injection H as <- <-; cbn [t_reqs].
-    + (* unreachable but harmless *)
-      repeat split.
-      * intros x Hx. apply in_del in Hx. destruct Hx as [Hx Hne]. destruct (U x Hx) as [A|A]; auto.
-        subst x. cbn in Hne. congruence.
-      * intros x Hx Hne. apply in_del. auto.
-      * admit.
-    + repeat split.
-      * intros x Hx. apply in_del in Hx. destruct Hx as [Hx Hne]. destruct (U x Hx) as [A|A]; auto.
-        subst x. cbn in Hne. congruence.
-      * intros x Hx Hne. apply in_del. auto.
-Abort.
+  rewrite map_app. cbn [map]. intro ND. apply NoDup_remove_2 in ND.
+  split; intros x Hx E; apply ND; apply in_app_iff; [left|right]; rewrite <- E; apply in_map; exact Hx.
+Qed.
+
+Lemma map_id_on {A} (f : A -> A) l : (forall x, In x l -> f x = x) -> map f l = l.
+Proof. induction l as [|a l IH]; intro H; cbn; [reflexivity|]. rewrite H by (left; reflexivity). rewrite IH; auto. intros; apply H; right; auto. Qed.
+
+Lemma upd_unique pre r rest f : NoDup (map r_id (pre ++ r :: rest)) ->
+  upd (r_id r) f (pre ++ r :: rest) = pre ++ f r :: rest.
+Proof.
+  intro ND. destruct (nodup_ids_mid _ _ _ ND) as [A B]. unfold upd. rewrite map_app. cbn [map].
+  rewrite Z.eqb_refl. f_equal; [|f_equal].
+  - apply map_id_on. intros x Hx. apply A in Hx. apply Z.eqb_neq in Hx. rewrite Hx. reflexivity.
+  - apply map_id_on. intros x Hx. apply B in Hx. apply Z.eqb_neq in Hx. rewrite Hx. reflexivity.
+Qed.
+
+Lemma filter_all {A} (p : A -> bool) l : (forall x, In x l -> p x = true) -> filter p l = l.
+Proof. induction l as [|a l IH]; intro H; cbn; [reflexivity|]. rewrite H by (left; reflexivity). rewrite IH; auto. intros; apply H; right; auto. Qed.
+
+Lemma del_unique pre r r' rest : NoDup (map r_id (pre ++ r :: rest)) -> r_id r' = r_id r ->
+  del (r_id r) (pre ++ r' :: rest) = pre ++ rest.
+Proof.
+  intros ND E. destruct (nodup_ids_mid _ _ _ ND) as [A B]. unfold del. rewrite filter_app. cbn [filter].
+  rewrite E, Z.eqb_refl. cbn [negb]. f_equal.
+  - apply filter_all. intros x Hx. apply A in Hx. apply Z.eqb_neq in Hx. rewrite Hx. reflexivity.
+  - apply filter_all. intros x Hx. apply B in Hx. apply Z.eqb_neq in Hx. rewrite Hx. reflexivity.
+Qed.
+
+Lemma send_each_all : forall snap pre t,
+  t_reqs t = pre ++ snap ->
+  NoDup (map r_id (pre ++ snap)) ->
+  Forall (fun r => r_sent r = false) snap ->
+  NoDup (map r_h snap) ->
+  Forall (fun r => ~ In (r_h r) (t_fired t)) snap ->
+  send_each t snap = (mkT (pre ++ sq_reqs snap) (t_dlog t) (rev (sq_fired snap) ++ t_fired t), sq_outs snap).
+Proof.
+  induction snap as [|r rest IH]; intros pre t Ht ND Hs NDh Hf.
+  - cbn. rewrite app_nil_r in *. destruct t; cbn in *. subst. reflexivity.
+  - cbn [send_each]. inversion Hs as [|? ? Hs1 Hs2]; subst. rewrite Hs1.
+    inversion Hf as [|? ? Hf1 Hf2]; subst. cbn [map] in NDh. inversion NDh as [|? ? Nh1 Nh2]; subst.
+    unfold send_request. rewrite Ht. rewrite upd_unique by exact ND. unfold t_with_reqs. cbn [t_reqs t_dlog t_fired].
+    destruct (r_expect r) eqn:Ee.
+    + specialize (IH (pre ++ [set_sent true r]) (mkT (pre ++ set_sent true r :: rest) (t_dlog t) (t_fired t))).
+      cbn [t_reqs t_dlog t_fired] in IH. rewrite <- app_assoc in IH. cbn [app] in IH.
+      rewrite IH; auto.
+      * unfold sq_reqs, sq_fired, sq_outs. cbn [filter flat_map map]. rewrite Ee. cbn [negb map app].
+        rewrite <- app_assoc. reflexivity.
+      * clear - ND. rewrite map_app in *. cbn [map] in *. exact ND.
+    + rewrite del_unique by (auto; reflexivity).
+      rewrite fire_unfired by (cbn; exact Hf1). cbn [t_reqs t_dlog t_fired].
+      specialize (IH pre (mkT (pre ++ rest) (t_dlog t) (r_h r :: t_fired t))).
+      cbn [t_reqs t_dlog t_fired] in IH. rewrite IH; auto.
+      * unfold sq_reqs, sq_fired, sq_outs. cbn [filter flat_map map]. rewrite Ee. cbn [negb map rev app].
+        rewrite <- app_assoc. reflexivity.
+      * clear - ND. rewrite map_app in *. cbn [map] in ND. apply NoDup_remove_1 in ND. exact ND.
+      * rewrite Forall_forall in *. intros x Hx [E|F]; [|exact (Hf2 x Hx F)].
+        apply Nh1. rewrite E. apply in_map. exact Hx.
+Qed.
+
+Lemma scan_sq d : forall snap f, NoDup (map r_h snap) ->
+  Forall (fun r => ~ In (r_h r) f /\ id_of d (r_h r) (r_id r) = true) snap ->
+  scan d f (sq_outs snap) = Some (rev (sq_fired snap) ++ f).
+Proof.
+  induction snap as [|r rest IH]; intros f ND Hf; [reflexivity|].
+  inversion Hf as [|? ? [F1 F2] Hf2]; subst. cbn [map] in ND. inversion ND as [|? ? N1 N2]; subst.
+  unfold sq_outs, sq_fired. cbn [flat_map filter app scan]. unfold memb. rewrite (proj2 (memb_nIn _ _) F1), F2.
+  destruct (r_expect r); cbn [negb app scan outcome_ok map rev].
+  - apply IH; auto.
+  - unfold memb. rewrite (proj2 (memb_nIn _ _) F1). rewrite <- app_assoc. cbn [app].
+    apply IH; auto. rewrite Forall_forall in *. intros x Hx. destruct (Hf2 x Hx) as [A B]. split; auto.
+    intros [E|F]; [|exact (A F)]. apply N1. rewrite E. apply in_map. exact Hx.
+Qed.
+
+Lemma in_sq_fired h rs : In h (sq_fired rs) <-> exists r, In r rs /\ r_expect r = false /\ r_h r = h.
+Proof.
+  unfold sq_fired. rewrite in_map_iff. split.
+  - intros (r & E & Hr). apply filter_In in Hr. destruct Hr as [Hr He]. apply negb_true_iff in He. eauto.
+  - intros (r & Hr & He & E). exists r. split; auto. apply filter_In. split; auto. rewrite He. reflexivity.
+Qed.
+
+Lemma NoDup_app_intro {A} (a b : list A) : NoDup a -> NoDup b -> (forall x, In x a -> ~ In x b) -> NoDup (a ++ b).
+Proof.
+  induction 1 as [|x a Hx Ha IH]; intros Hb D; cbn; auto. constructor.
+  - intro H. apply in_app_iff in H. destruct H as [H|H]; [auto | apply (D x); [left; reflexivity | exact H]].
+  - apply IH; auto. intros y Hy. apply D. right. exact Hy.
+Qed.
+
+(* the table after _sendQueued on a fresh connection *)
+Lemma TInv_sendq t : TInv t -> Forall (fun r => r_sent r = false) (t_reqs t) ->
+  TInv (mkT (sq_reqs (t_reqs t)) (t_dlog t) (rev (sq_fired (t_reqs t)) ++ t_fired t)).
+Proof.
+  intros T Hs. rewrite Forall_forall in Hs.
+  assert (Live : forall r, In r (t_reqs t) -> r_cancelled r = false).
+  { intros r Hr. destruct (TInv_entry t r T Hr) as (_ & E2 & _). destruct (r_cancelled r); auto.
+    rewrite (Hs r Hr) in E2. symmetry. auto. }
+  constructor; cbn [t_reqs t_dlog t_fired].
+  - unfold sq_reqs. rewrite map_map. cbn [set_sent r_id]. apply NoDup_map_filter. apply (ti_ids t T).
+  - unfold sq_reqs. rewrite map_map. cbn [set_sent r_h]. apply SSorted_map_filter. apply (ti_sorted t T).
+  - rewrite Forall_forall. intros x' Hx'. unfold sq_reqs in Hx'. apply in_map_iff in Hx'.
+    destruct Hx' as (x & <- & Hx). apply filter_In in Hx. destruct Hx as [Hx He].
+    destruct (TInv_entry t x T Hx) as (X1 & X2 & X3 & X4). unfold entry_ok. cbn. rewrite (Live x Hx).
+    repeat split; auto; try discriminate.
+    intros _ F. apply in_app_iff in F. destruct F as [F|F]; [|exact (X3 (Live x Hx) F)].
+    apply in_rev in F. apply in_sq_fired in F. destruct F as (y & Hy & Ey & Eh).
+    assert (y = x) by (eapply TInv_h_inj; eauto). subst y. congruence.
+  - intros h Hh. apply in_app_iff in Hh. destruct Hh as [Hh|Hh]; [|apply (ti_fired_lt t T); exact Hh].
+    apply in_rev in Hh. apply in_sq_fired in Hh. destruct Hh as (y & Hy & _ & <-).
+    destruct (TInv_entry t y T Hy) as (X1 & _). apply nth_error_Some. congruence.
+  - apply NoDup_app_intro.
+    + apply NoDup_rev. unfold sq_fired. apply NoDup_map_filter. apply TInv_handles_nodup. exact T.
+    + apply (ti_fired_nodup t T).
+    + intros h Hh F. apply in_rev in Hh. apply in_sq_fired in Hh. destruct Hh as (y & Hy & _ & <-).
+      destruct (TInv_entry t y T Hy) as (_ & _ & X3 & _). exact (X3 (Live y Hy) F).
+  - intros h Hl Hf. destruct (ti_complete t T h Hl) as (x & Hx & Eh).
+    { intro F. apply Hf. apply in_app_iff. right. exact F. }
+    exists (set_sent true x). split; [|exact Eh]. unfold sq_reqs. apply in_map. apply filter_In. split; [exact Hx|].
+    destruct (r_expect x) eqn:Ee; [reflexivity|]. exfalso. apply Hf. apply in_app_iff. left. apply -> in_rev.
+    apply in_sq_fired. eauto.
+Qed.
+
+Lemma send_queued_ok t : TInv t -> Forall (fun r => r_sent r = false) (t_reqs t) ->
+  send_queued t = (mkT (sq_reqs (t_reqs t)) (t_dlog t) (rev (sq_fired (t_reqs t)) ++ t_fired t), sq_outs (t_reqs t))
+  /\ op_ok t (mkT (sq_reqs (t_reqs t)) (t_dlog t) (rev (sq_fired (t_reqs t)) ++ t_fired t)) (sq_outs (t_reqs t)).
+Proof.
+  intros T Hs.
+  assert (Live : forall r, In r (t_reqs t) -> r_cancelled r = false).
+  { intros r Hr. destruct (TInv_entry t r T Hr) as (_ & E2 & _). destruct (r_cancelled r); auto.
+    rewrite Forall_forall in Hs. rewrite (Hs r Hr) in E2. symmetry. auto. }
+  assert (U : Forall (fun r => ~ In (r_h r) (t_fired t) /\ id_of (t_dlog t) (r_h r) (r_id r) = true) (t_reqs t)).
+  { rewrite Forall_forall. intros r Hr. pose proof (TInv_entry t r T Hr) as E. split; [|apply id_of_entry; exact E].
+    destruct E as (_ & _ & E3 & _). apply E3. apply Live. exact Hr. }
+  split.
+  - unfold send_queued. pose proof (send_each_all (t_reqs t) [] t) as X. cbn [app] in X. apply X; auto.
+    + apply (ti_ids t T).
+    + apply TInv_handles_nodup. exact T.
+    + rewrite Forall_forall in *. intros r Hr. apply (U r Hr).
+  - op3; [apply TInv_sendq; auto|]. cbn [t_fired]. apply scan_sq; auto. apply TInv_handles_nodup. exact T.
+Qed.
+
+(* ------------------------------------------------------------------ close(): fail everything that is left *)
+Definition live (r : req) : bool := negb (r_cancelled r).
+
+Lemma fail_all_spec : forall rs t, NoDup (map r_h rs) ->
+  Forall (fun r => r_cancelled r = false -> ~ In (r_h r) (t_fired t)) rs ->
+  fail_all t rs = (mkT (t_reqs t) (t_dlog t) (rev (map r_h (filter live rs)) ++ t_fired t),
+                   map (fun r => ODef (r_h r) FailClosed) (filter live rs)).
+Proof.
+  induction rs as [|r rs IH]; intros t ND Hf.
+  - cbn. destruct t; reflexivity.
+  - cbn [fail_all filter]. replace (live r) with (negb (r_cancelled r)) by reflexivity. cbn [map] in ND. inversion ND as [|? ? N1 N2]; subst.
+    inversion Hf as [|? ? F1 F2]; subst. destruct (r_cancelled r) eqn:C; cbn [negb].
+    + apply IH; auto.
+    + rewrite fire_unfired by auto. rewrite IH; cbn [t_reqs t_dlog t_fired]; auto.
+      * cbn [map rev]. rewrite <- app_assoc. reflexivity.
+      * rewrite Forall_forall in *. intros x Hx Cx [E|F]; [|exact (F2 x Hx Cx F)].
+        apply N1. rewrite E. apply in_map. exact Hx.
+Qed.
+
+Lemma scan_defs d oc : (forall f, oc <> Succ f) -> forall hs f, NoDup hs -> (forall h, In h hs -> ~ In h f) ->
+  scan d f (map (fun h => ODef h oc) hs) = Some (rev hs ++ f).
+Proof.
+  intro Hoc. induction hs as [|h hs IH]; intros f ND D; [reflexivity|].
+  inversion ND as [|? ? N1 N2]; subst. cbn [map scan]. unfold memb.
+  rewrite (proj2 (memb_nIn _ _) (D h (or_introl eq_refl))).
+  replace (outcome_ok d h oc) with true by (destruct oc; auto; exfalso; eapply Hoc; reflexivity).
+  cbn [rev]. rewrite <- app_assoc. cbn [app]. apply IH; auto.
+  intros x Hx [E|F]; [subst; auto | exact (D x (or_intror Hx) F)].
+Qed.
+
+Lemma close_table_ok t : TInv t ->
+  let t' := mkT [] (t_dlog t) (rev (map r_h (filter live (rev (t_reqs t)))) ++ t_fired t) in
+  fail_all (t_with_reqs t []) (rev (t_reqs t)) = (t', map (fun r => ODef (r_h r) FailClosed) (filter live (rev (t_reqs t))))
+  /\ op_ok t t' (map (fun r => ODef (r_h r) FailClosed) (filter live (rev (t_reqs t))))
+  /\ (forall h, (h < length (t_dlog t))%nat -> In h (t_fired t')).
+Proof.
+  intros T t'.
+  assert (NDr : NoDup (map r_h (rev (t_reqs t)))).
+  { rewrite map_rev. apply NoDup_rev. apply TInv_handles_nodup. exact T. }
+  assert (Hf : Forall (fun r => r_cancelled r = false -> ~ In (r_h r) (t_fired t)) (rev (t_reqs t))).
+  { rewrite Forall_forall. intros r Hr C. apply in_rev in Hr. destruct (TInv_entry t r T Hr) as (_ & _ & E3 & _). auto. }
+  assert (All : forall h, (h < length (t_dlog t))%nat -> In h (t_fired t')).
+  { intros h Hl. unfold t'. cbn [t_fired]. apply in_app_iff.
+    destruct (in_dec Nat.eq_dec h (t_fired t)) as [F|F]; [right; exact F|left].
+    destruct (ti_complete t T h Hl F) as (x & Hx & Eh). apply -> in_rev. apply in_map_iff. exists x. split; auto.
+    apply filter_In. split; [apply -> in_rev; exact Hx|]. unfold live.
+    destruct (TInv_entry t x T Hx) as (_ & _ & _ & E4). destruct (r_cancelled x); auto. exfalso. apply F. rewrite <- Eh. auto. }
+  split; [|split; [|exact All]].
+  - rewrite fail_all_spec; auto.
+  - op3.
+    + constructor; cbn [t_reqs t_dlog t_fired t'].
+      * constructor.
+      * constructor.
+      * constructor.
+      * intros h Hh. apply in_app_iff in Hh. destruct Hh as [Hh|Hh]; [|apply (ti_fired_lt t T); exact Hh].
+        apply in_rev in Hh. apply in_map_iff in Hh. destruct Hh as (x & <- & Hx). apply filter_In in Hx.
+        destruct Hx as [Hx _]. apply in_rev in Hx. destruct (TInv_entry t x T Hx) as (X1 & _).
+        apply nth_error_Some. congruence.
+      * apply NoDup_app_intro.
+        -- apply NoDup_rev. apply NoDup_map_filter. exact NDr.
+        -- apply (ti_fired_nodup t T).
+        -- intros h Hh F. apply in_rev in Hh. apply in_map_iff in Hh. destruct Hh as (x & <- & Hx).
+           apply filter_In in Hx. destruct Hx as [Hx Lx]. rewrite Forall_forall in Hf. apply (Hf x Hx); auto.
+           unfold live in Lx. destruct (r_cancelled x); [discriminate | reflexivity].
+      * intros h Hl F. exfalso. apply F. apply (All h Hl).
+    + cbn [t_fired t']. rewrite <- map_map with (f := r_h) (g := fun h => ODef h FailClosed).
+      apply scan_defs.
+      * discriminate.
+      * apply NoDup_map_filter. exact NDr.
+      * intros h Hh F. apply in_map_iff in Hh. destruct Hh as (x & <- & Hx).
+        apply filter_In in Hx. destruct Hx as [Hx Lx]. rewrite Forall_forall in Hf. apply (Hf x Hx); auto.
+        unfold live in Lx. destruct (r_cancelled x); [discriminate | reflexivity].
+Qed.
+
+(* ------------------------------------------------------------------ _connectionLost: unsend the live entries, drop tombstones *)
+Definition lost_reqs (rs : list req) : list req := map (set_sent false) (filter live rs).
+
+Lemma TInv_lost t : TInv t -> TInv (t_with_reqs t (lost_reqs (t_reqs t))).
+Proof.
+  intro T. constructor; cbn [t_with_reqs t_reqs t_dlog t_fired]; unfold lost_reqs.
+  - rewrite map_map. cbn [set_sent r_id]. apply NoDup_map_filter. apply (ti_ids t T).
+  - rewrite map_map. cbn [set_sent r_h]. apply SSorted_map_filter. apply (ti_sorted t T).
+  - rewrite Forall_forall. intros x' Hx'. apply in_map_iff in Hx'. destruct Hx' as (x & <- & Hx).
+    apply filter_In in Hx. destruct Hx as [Hx Lx]. unfold live in Lx.
+    destruct (TInv_entry t x T Hx) as (X1 & X2 & X3 & X4). unfold entry_ok. cbn.
+    destruct (r_cancelled x); [discriminate|]. repeat split; auto; discriminate.
+  - apply (ti_fired_lt t T).
+  - apply (ti_fired_nodup t T).
+  - intros h Hl F. destruct (ti_complete t T h Hl F) as (x & Hx & Eh).
+    exists (set_sent false x). split; [|exact Eh]. apply in_map. apply filter_In. split; [exact Hx|].
+    unfold live. destruct (TInv_entry t x T Hx) as (_ & _ & _ & E4). destruct (r_cancelled x); auto.
+    exfalso. apply F. rewrite <- Eh. auto.
+Qed.
+
+(* ------------------------------------------------------------------ makeRequest: a new Deferred *)
+Lemma entry_ok_dlog_app t x r : entry_ok t r -> entry_ok (mkT (t_reqs t) (t_dlog t ++ x) (t_fired t)) r.
+Proof.
+  intros (E1 & E2 & E3 & E4). unfold entry_ok. cbn [t_dlog t_fired]. repeat split; auto.
+  rewrite nth_error_app1; [exact E1 | apply nth_error_Some; congruence].
+Qed.
+
+Lemma TInv_add t rid e : TInv t -> lookup rid (t_reqs t) = None ->
+  TInv (mkT (t_reqs t ++ [mkReq rid (length (t_dlog t)) e false false]) (t_dlog t ++ [rid]) (t_fired t)).
+Proof.
+  intros T L. pose proof (lookup_none _ _ L) as Hn.
+  assert (Hlt : forall r, In r (t_reqs t) -> (r_h r < length (t_dlog t))%nat).
+  { intros r Hr. destruct (TInv_entry t r T Hr) as (X1 & _). apply nth_error_Some. congruence. }
+  constructor; cbn [t_reqs t_dlog t_fired].
+  - rewrite map_app. cbn [map r_id]. apply NoDup_app_intro; [apply (ti_ids t T) | repeat constructor; auto |].
+    intros x Hx [<-|[]]. apply in_map_iff in Hx. destruct Hx as (r & E & Hr). exact (Hn r Hr E).
+  - rewrite map_app. cbn [map r_h]. apply SSorted_app_last; [apply (ti_sorted t T)|].
+    intros y Hy. apply in_map_iff in Hy. destruct Hy as (r & <- & Hr). auto.
+  - apply Forall_app. split.
+    + rewrite Forall_forall. intros r Hr. pose proof (TInv_entry t r T Hr) as E.
+      apply (entry_ok_dlog_app t [rid]) in E. exact E.
+    + constructor; [|constructor]. unfold entry_ok. cbn. rewrite nth_error_app2 by lia. rewrite Nat.sub_diag.
+      repeat split; auto; try discriminate. intros _ F. apply (ti_fired_lt t T) in F. lia.
+  - intros h Hh. rewrite app_length. cbn. apply (ti_fired_lt t T) in Hh. lia.
+  - apply (ti_fired_nodup t T).
+  - intros h Hl F. rewrite app_length in Hl. cbn in Hl.
+    destruct (Nat.eq_dec h (length (t_dlog t))) as [->|Hne].
+    + eexists. split; [apply in_app_iff; right; left; reflexivity | reflexivity].
+    + destruct (ti_complete t T h ltac:(lia) F) as (x & Hx & Eh). exists x. split; auto. apply in_app_iff. auto.
+Qed.
+
+Lemma TInv_add_closed t rid : TInv t ->
+  TInv (mkT (t_reqs t) (t_dlog t ++ [rid]) (length (t_dlog t) :: t_fired t)).
+Proof.
+  intros T.
+  assert (Hlt : forall r, In r (t_reqs t) -> (r_h r < length (t_dlog t))%nat).
+  { intros r Hr. destruct (TInv_entry t r T Hr) as (X1 & _). apply nth_error_Some. congruence. }
+  constructor; cbn [t_reqs t_dlog t_fired].
+  - apply (ti_ids t T).
+  - apply (ti_sorted t T).
+  - rewrite Forall_forall. intros r Hr. destruct (TInv_entry t r T Hr) as (X1 & X2 & X3 & X4).
+    unfold entry_ok. cbn [t_dlog t_fired]. repeat split; auto.
+    + rewrite nth_error_app1; auto.
+    + intros C [E|F]; [specialize (Hlt r Hr); lia | exact (X3 C F)].
+    + intro C. right. auto.
+  - intros h [<-|Hh]; rewrite app_length; cbn; [lia|]. apply (ti_fired_lt t T) in Hh. lia.
+  - constructor; [|apply (ti_fired_nodup t T)]. intro F. apply (ti_fired_lt t T) in F. lia.
+  - intros h Hl F. rewrite app_length in Hl. cbn in Hl.
+    assert (h <> length (t_dlog t)) by (intro E; apply F; left; auto).
+    destruct (ti_complete t T h ltac:(lia)) as (x & Hx & Eh); eauto. intro G. apply F. right. exact G.
+Qed.
+
+Lemma TInv_init : TInv (mkT [] [] []).
+Proof. constructor; cbn; try constructor; try contradiction. intros h Hl. lia. Qed.
+
+(* ------------------------------------------------------------------ only makeRequest extends the Deferred log *)
+Lemma fire_dlog t h o : t_dlog (fst (fire t h o)) = t_dlog t.
+Proof. unfold fire. destruct (is_fired t h); reflexivity. Qed.
+
+Lemma send_request_dlog t r : t_dlog (fst (send_request t r)) = t_dlog t.
+Proof.
+  unfold send_request. destruct (r_expect r); [reflexivity|].
+  pose proof (fire_dlog (t_with_reqs (t_with_reqs t (upd (r_id r) (set_sent true) (t_reqs t)))
+     (del (r_id r) (t_reqs (t_with_reqs t (upd (r_id r) (set_sent true) (t_reqs t)))))) (r_h r) SuccNone) as X.
+  destruct (fire _ _ _) as [t2 o]. cbn [fst] in *. exact X.
+Qed.
+
+Lemma send_each_dlog : forall snap t, t_dlog (fst (send_each t snap)) = t_dlog t.
+Proof.
+  induction snap as [|r rest IH]; intro t; cbn [send_each]; [reflexivity|].
+  destruct (r_sent r); [apply IH|].
+  pose proof (send_request_dlog t r) as A. destruct (send_request t r) as [t1 o1].
+  specialize (IH t1). destruct (send_each t1 rest) as [t2 o2]. cbn [fst] in *. congruence.
+Qed.
+
+Lemma cancel_dlog t h : t_dlog (fst (cancel t h)) = t_dlog t.
+Proof.
+  unfold cancel. destruct (nth_error (t_dlog t) h); [|reflexivity]. destruct (is_fired t h); [reflexivity|].
+  destruct (lookup z (t_reqs t)); [|reflexivity]. rewrite fire_dlog. destruct (r_sent r); reflexivity.
+Qed.
+
+Lemma handle_response_dlog t f : t_dlog (fst (handle_response t f)) = t_dlog t.
+Proof.
+  unfold handle_response. destruct (corr_id f); [|reflexivity]. destruct (lookup z (t_reqs t)); [|reflexivity].
+  destruct (r_cancelled r); [reflexivity|]. rewrite fire_dlog. reflexivity.
+Qed.
+
+Lemma deliver_dlog : forall fs t, t_dlog (fst (deliver t fs)) = t_dlog t.
+Proof.
+  induction fs as [|f fs IH]; intro t; cbn [deliver]; [reflexivity|].
+  pose proof (handle_response_dlog t f) as A. destruct (handle_response t f) as [t1 o1].
+  specialize (IH t1). destruct (deliver t1 fs) as [t2 o2]. cbn [fst] in *. congruence.
+Qed.
+
+Lemma fail_all_dlog : forall rs t, t_dlog (fst (fail_all t rs)) = t_dlog t.
+Proof.
+  induction rs as [|r rs IH]; intro t; cbn [fail_all]; [reflexivity|].
+  destruct (r_cancelled r); [apply IH|].
+  pose proof (fire_dlog t (r_h r) FailClosed) as A. destruct (fire t (r_h r) FailClosed) as [t1 o1].
+  specialize (IH t1). destruct (fail_all t1 rs) as [t2 o2]. cbn [fst] in *. congruence.
+Qed.
